@@ -28,6 +28,8 @@ def replay_cases(rep: C.Report, cases: t.List[t.Dict[str, t.Any]], rnd: random.R
     from sansldap.asn1 import ASN1Reader, ASN1Tag, ASN1Writer, TagClass
 
     for cs in cases:
+        if C.too_many_hangs():
+            break
         content = bytes(cs["content"])
         want = C.unlimb(cs["value"])
         canon = bytes(cs["canon"])
@@ -279,6 +281,8 @@ def drive(rnd: random.Random, n: int) -> t.List[t.Dict[str, t.Any]]:
         return d
 
     for _ in range(n):
+        if C.too_many_hangs():
+            break
         op = rnd.choice(("wint", "wint", "rint", "rint", "wbool", "rbool", "woct", "roct", "whdr", "rhdr", "rhdr", "tree"))
         trail = bytes(rnd.randrange(256) for _ in range(rnd.randrange(0, 4)))
         try:
